@@ -417,6 +417,7 @@ class Exec:
     # -------------------------------------------------------------- try
     def exec_try(self, st, env):
         ctx = self.ctx
+        depth = len(env.frames)      # the body may push callee frames onto this very object
         ctx.scopes.append([])
         n, comps = self.exec_block(st.body, [env])
         events = ctx.scopes.pop()
@@ -435,7 +436,7 @@ class Exec:
                     handled = True
                     henv = ev.env
                     # restore frame depth: handler runs in the frame of the try statement
-                    henv.frames = henv.frames[:len(env.frames)]
+                    henv.frames = henv.frames[:depth]
                     if h.name:
                         henv.vars[h.name] = Opaque('exception')
                     ctx.scopes.append([])
